@@ -21,6 +21,7 @@ def staticRule (A : Arch) (L : List Module) (la : Nat) (first : Bool) : Option A
       | .staticErr => some A.fallback
       | .generic _ => none
       | .pe _ => none
+      | .panic => none
 
 /-- The miss path inserts exactly `staticRule`, and when it inserts a rule its outcome is the
 execution of that rule: what is cached never depends on registers or memory. -/
@@ -42,6 +43,7 @@ theorem missPath_static (A : Arch) (u : Unw) (addr : FrameAddr) (regs : A.Regs) 
       cases plan A m rel (!addr.isReturn) with
       | exec r => simp
       | staticErr => simp
+      | panic => simp
       | generic row =>
         simp only []
         cases A.generic row (!addr.isReturn) regs mem <;> simp
